@@ -106,8 +106,8 @@ func (r *Rec) NonTrivialSig(sig string, sample func() interface{}) {
 type KnownEntry struct {
 	ID        string `json:"id"`
 	Property  string `json:"property"`
-	Assertion string `json:"assertion"`
-	Context   string `json:"context"` // regular expression, anchored
+	Assertion string `json:"assertion"` // regular expression, anchored
+	Context   string `json:"context"`   // regular expression, anchored
 	What      string `json:"what"`
 }
 
@@ -137,7 +137,10 @@ func loadKnown() {
 func MatchKnown(property, assertion, context string) (string, bool) {
 	knownOnce.Do(loadKnown)
 	for _, k := range knownList {
-		if k.Property != property || k.Assertion != assertion {
+		if k.Property != property {
+			continue
+		}
+		if ok, _ := regexp.MatchString("^(?:"+k.Assertion+")$", assertion); !ok {
 			continue
 		}
 		if ok, _ := regexp.MatchString("^(?:"+k.Context+")$", context); ok {
